@@ -5,7 +5,8 @@ class C38(Spec):
     prop = "C38"
     drv = "drv_c38"
     harness = "h_c38"
-    required_theorems = ("C38.full_statement", "C38.guarded_secret_needs_unlock", "C38.password_change_never_touches_flag",
+    required_theorems = ("C38.full_statement", "C38.guarded_secret_needs_unlock", "C38.sign_with_stored_key_needs_unlock",
+                         "C38.sign_locked_never_uses_stored_key", "C38.password_change_never_touches_flag",
                          "C38.unlocked_needs_unlock_without_password_change", "C38.window_excludes_guarded", "C38.lock_locks",
                          "C38.unlock_wrong_password_no_change", "C38.guarded_locked",
                          "C38.regression_old_transient_unlock", "C38.regression_old_lost_lock",
@@ -20,7 +21,10 @@ class C38(Spec):
                   "guarded handler returns a secret only after a successful unlock; no micro-step of a password change (failed or "
                   "successful) changes the flag. Tie: scripted interleavings on a real wallet (leveldb store, real queue) in which "
                   "ProcWalletSetPasswd is HELD at store accesses inside the call (VerifyPasswordHash, batch write) while readers / "
-                  "Lock / blocked callers run, the real unlock timer, ten guarded handlers through the wallet's message loop, every "
+                  "Lock / blocked callers run and an observer reads the flag at EVERY store access of a password change, SignRawTx with "
+                  "every combination of its two key-selecting fields (Addr wins over Privkey; whose key signed is read off the "
+                  "returned transaction) in every lock state (never unlocked, unlocked, locked again, ticket-only unlock, locked "
+                  "by the timeout), the real unlock timer, ten guarded handlers through the wallet's message loop, every "
                   "answer compared with the compiled model; plus polling observers during failing password changes, a Lock racing "
                   "with a password change, and concurrent generated request mixes (every 'unlocked' observation / returned key must "
                   "be explained in real time by a successful unlock not followed by a completed lock), predicate evaluated on the "
